@@ -4,7 +4,8 @@ Functions under contract (real bodies): Transect.__init__, Transect.transect_dat
 utils.move_dimensions_to_end, name_to_data_array, Convention.ravel (DimensionConvention.ravel inline, C03).
 Callee contract: Transect.segments = a sequence of any length of segments (linear_index(k) a valid cell, start(k), end(k)) and Transect.points
 (the path vertices) -- produced by the geometric part.
-Also under contract (real bodies), against abstract geometry terms: Transect.segments and Transect._intersect_polygon -- routing only: which
+Also under contract (real bodies), against abstract geometry terms: Transect.distance_along_line (which vertex, which projection, which two
+projected geometries), Transect.segments and Transect._intersect_polygon -- routing only: which
 cells and which pieces become segments, what each segment carries, and the order of the list (FOREACH / COLLECT rule for the two nested
 loops over sequences of symbolic length; library contracts SH-STRTREE-QUERY, SH-INTERSECTION, PY-SORTED; callee contract
 distance_along_line(point) = D(point)).
@@ -18,9 +19,10 @@ import z3
 
 from contracts import base, inputs
 from pyvc import core
-from pyvc.api import (FIN, PathEnd, SFloat, XDataArray, call, cls, expect_ok, fn, method, mk_bool, mk_int, mk_real, new_interp, s_and, s_eq,
+from pyvc.api import (FIN, PathEnd, SFloat, XDataArray, call, cls, expect_ok, fn, method, mk_bool, mk_int, mk_real, new_interp, outcome, s_and, s_eq,
                       s_implies, sym_array, sym_size, zint)
 from pyvc.contract import Contract
+from pyvc.interp import exc_matches
 from pyvc.lib.numpy_ import NDArray, unravel
 from pyvc.lib.seq import SymSeq
 from pyvc.lib.stdlib import OpaqueValue
@@ -37,6 +39,7 @@ def scenarios(tier):
             out.append({'name': f'prepare_data_array_for_transect[{cfg[0]}, layout {layout}]', 'fn': 'scn_prepare', 'kwargs': {'ci': ci, 'layout': layout}})
     for bounds in (False, True):
         out.append({'name': f'transect_dataset[depth bounds {"given" if bounds else "derived"}]', 'fn': 'scn_dataset', 'kwargs': {'bounds': bounds}})
+    out.append({'name': 'Transect.distance_along_line', 'fn': 'scn_distance_along_line', 'kwargs': {}})
     for ci, cfg in enumerate(CONFIGS):
         out.append({'name': f'Transect._intersect_polygon[{cfg[0]}]', 'fn': 'scn_intersect_polygon', 'kwargs': {'ci': ci}})
         out.append({'name': f'Transect.segments[{cfg[0]}]', 'fn': 'scn_segments', 'kwargs': {'ci': ci}})
@@ -262,6 +265,7 @@ def scn_segments(c, ci):
     if not ok:
         raise PathEnd()
     outer = src[0]
+    outer.reassume()            # what the executor learnt about the arbitrary iterations (kept with their record, not with the path)
     q = getattr(outer.seq, 'query', None)
     c.check("the loop runs over exactly the cells whose polygon intersects the path (STRtree over all polygons, predicate 'intersects')",
             q is not None and q[0].geoms is polys and q[1] is line and q[2] == 'intersects')
@@ -306,6 +310,121 @@ def scn_segments(c, ci):
             c.check('start is never after end', mk_bool(core.zreal(a['start_distance'].val) <= core.zreal(a['end_distance'].val)))
         c.check('listed by increasing start distance, then end distance: the sort key of a segment is (start_distance, end_distance), ascending',
                 (not view.reverse) and isinstance(key, tuple) and len(key) == 2 and key[0] is a['start_distance'] and key[1] is a['end_distance'])
+
+
+class _CRS:
+    """an azimuthal equidistant projection centred on one path vertex (cartopy, abstract): project_geometry / distance as terms"""
+    _pyvc_model_class = True
+
+    def __init__(self, c, k):
+        self.k = k
+        self.c = c
+
+    def project_geometry(self, geom, src_crs=None):
+        f = self.c._shp_fns.setdefault('crs_project', z3.Function('crs_project', z3.IntSort(), core.GeomSort, core.GeomSort))
+        if not hasattr(geom, 'z'):
+            raise core.Unsupported('project_geometry of something that is not a geometry')
+        core.ctx().event('project_geometry', self.k, geom, src_crs)
+        return _Projected(f(zint(self.k), geom.z))
+
+
+class _Projected:
+    _pyvc_model_class = True
+
+    def __init__(self, z):
+        self.z = z
+
+    def distance(self, other):
+        c = core.ctx()
+        f = c._shp_fns.setdefault('planar_distance', z3.Function('planar_distance', core.GeomSort, core.GeomSort, z3.RealSort()))
+        if not isinstance(other, _Projected):
+            raise core.Unsupported('distance to something that was not projected')
+        d = f(self.z, other.z)
+        c.assume(d >= 0)
+        return SFloat(FIN, mk_real(d))
+
+
+class _TPoint:
+    _pyvc_model_class = True
+
+    def __init__(self, point, crs, metres, normalised):
+        self.point, self.crs, self.distance_metres, self.distance_normalised = point, crs, metres, normalised
+
+
+class _PathLine:
+    """the transect path: a geometry term with LineString.project(point, normalized=True) as an uninterpreted position"""
+    _pyvc_model_class = True
+
+    def __init__(self, z):
+        self.z = z
+
+    def project(self, point, normalized=False):
+        c = core.ctx()
+        f = c._shp_fns.setdefault('line_project', z3.Function('line_project', core.GeomSort, core.GeomSort, z3.RealSort()))
+        c.event('line.project', point, normalized)
+        if not normalized:
+            raise core.Unsupported('LineString.project without normalized=True')
+        return SFloat(FIN, mk_real(f(self.z, point.z)))
+
+
+def scn_distance_along_line(c):
+    """distance_along_line(point) = accumulated distance of the last path vertex at or before the point + the planar distance, in that
+    vertex's own projection, between the projected vertex and the projected point; ValueError outside the path."""
+    from pyvc.lib.shapely_ import AbsGeom, _fn
+    it, ds, conv, conv_name, fdims, nk = _setup(c, 0, [])
+    _fn('pred_intersects', core.GeomSort, core.GeomSort, z3.BoolSort())      # creates the function table of this path
+    line = _PathLine(z3.Const('path', core.GeomSort))
+    npts = sym_size(c, 'npts', 2)
+    vert = c.fresh_fn('vertex', z3.IntSort(), core.GeomSort)
+    M = c.fresh_fn('vertex_metres', z3.IntSort(), z3.RealSort())
+    N = c.fresh_fn('vertex_normalised', z3.IntSort(), z3.RealSort())
+    c.assume(N(0) == 0)         # contract of Transect.points: the first vertex is at 0 (real body: distance_normalised=0)
+
+    def at(k):
+        return _TPoint(AbsGeom(vert(zint(k)), fixed_kind='Point'), _CRS(c, k), SFloat(FIN, mk_real(M(zint(k)))), SFloat(FIN, mk_real(N(zint(k)))))
+    pts = SymSeq(npts, at, 'list')
+    it.contracts[('emsarray.transect', 'Transect.points')] = Contract('emsarray.transect', 'Transect.points', post=lambda it_, a: pts,
+                                                                      verified_by='bounded native (C18 transect)')
+    T = cls(it, 'emsarray.transect', 'Transect')
+    tr = expect_ok(c, 'Transect(dataset, line)', lambda: it.instantiate(T, [ds, line], {'depth': 'zc'}))
+    p = AbsGeom(z3.Const('query_point', core.GeomSort), fixed_kind='Point')
+    out = outcome(lambda: method(it, tr, 'distance_along_line', p))
+    pos = c._shp_fns['line_project'](line.z, p.z)
+    if out[0] == 'raise':
+        for sel in getattr(c, 'selections', []):
+            sel.nonempty_iff(mk_int(zint(npts) - 1))      # ghost: vertex 0 (last in reversed order) qualifies whenever 0 <= position
+        c.check('an error only for a point that does not project onto the path (position outside [0, 1]): ValueError',
+                exc_matches(out[1], ValueError) and mk_bool(z3.Or(pos < 0, pos > 1)))
+        return
+    c.check('a result only for positions within [0, 1]', mk_bool(z3.And(pos >= 0, pos <= 1)))
+    res = out[1]
+    proj = c._shp_fns['crs_project']
+    dist = c._shp_fns['planar_distance']
+    v = c.fresh_int('v')
+    c.assume(v >= 0)
+    c.assume(v < npts)
+    c.assume(N(v.z) <= pos)
+    want = M(v.z) + dist(proj(v.z, vert(v.z)), proj(v.z, p.z))
+    c.check("= the accumulated distance of the last vertex at or before the point + the distance from that vertex, both projected in that vertex's own "
+            'projection (measured from where the vertex lands, not from the origin)',
+            _forall_later(c, npts, N, pos, v, mk_bool(core.zreal(res.val) == want)))
+    evs = [e for e in c.events if e[0] == 'project_geometry']
+    c.check('both geometries are projected from the CRS of the data', len(evs) == 2 and all(getattr(e[3], '_path', None) == 'cartopy.crs.PlateCarree()' for e in evs))
+
+
+def _forall_later(c, npts, N, pos, v, goal):
+    """goal under the hypothesis that v is the LAST vertex with N(v) <= pos.  Ghost steps: the hypothesis "no later vertex qualifies" is
+    instantiated at the vertex k* the code picked, and the selection theory of the code's lazy search (first hit in reversed order) is
+    instantiated at v (rank of v, then the order of ranks)."""
+    ks = [e[1] for e in c.events if e[0] == 'project_geometry']
+    sels = getattr(c, 'selections', [])
+    if not ks or not sels:
+        return False
+    k = ks[0]
+    sel = sels[-1]
+    r = sel.rank(mk_int(zint(npts) - 1 - v.z))
+    sel.sel(r)
+    return s_implies(mk_bool(z3.Implies(z3.And(zint(k) > v.z, zint(k) < zint(npts)), N(zint(k)) > pos)), goal)
 
 
 def _no_hits(c, polys, line):
